@@ -55,6 +55,19 @@ func checkArgs(c *Ctx, specs []argSpec) {
 		}
 		p := npath(args[s.Arg])
 		ok, _ := regexp.MatchString(s.Want, p)
+		if !ok {
+			// the value is handed in by the caller (computed once per batch instead of once per message, say): the rule
+			// is then about what every caller passes for that parameter
+			if via, paths := c.forwardedParam(fn, args[s.Arg]); via {
+				ok = len(paths) > 0
+				for _, ap := range paths {
+					if m, _ := regexp.MatchString(s.Want, ap); !m {
+						ok = false
+					}
+				}
+				p = p + "` = at the call sites of " + s.Fn[2] + " `" + strings.Join(paths, "` / `")
+			}
+		}
 		c.R.Check(ok, s.Rule, s.Key, s.What, c.PosOf(calls[0]), "argument is `"+p+"`, expected to match `"+s.Want+"`: "+s.Fail)
 	}
 }
@@ -119,3 +132,42 @@ func (c *Ctx) callersOf(id string) []string {
 }
 
 func regexpMatchString(pat, s string) (bool, error) { return regexp.MatchString(pat, s) }
+
+
+// forwardedParam: v is (exactly) a parameter of fn; returns the access paths of the corresponding actual argument at every
+// non-test call site of fn in the module.
+func (c *Ctx) forwardedParam(fn *ssa.Function, v ssa.Value) (bool, []string) {
+	prm, ok := ssax.Resolve(v).(*ssa.Parameter)
+	if !ok {
+		if prm, ok = v.(*ssa.Parameter); !ok {
+			return false, nil
+		}
+	}
+	idx := -1
+	for i, q := range fn.Params {
+		if q == prm {
+			idx = i
+		}
+	}
+	if idx < 0 {
+		return false, nil
+	}
+	var paths []string
+	for f := range c.P.AllFuncs() {
+		if !load.InModule(f) || c.isTestFunc(f) || strings.Contains(load.FuncName(f), "mocks/") || f.Synthetic != "" {
+			continue
+		}
+		ssax.Instrs(f, func(in ssa.Instruction) {
+			call, isCall := in.(ssa.CallInstruction)
+			if !isCall || call.Common().StaticCallee() != fn {
+				return
+			}
+			a := call.Common().Args
+			if idx < len(a) {
+				paths = append(paths, npath(a[idx]))
+			}
+		})
+	}
+	sort.Strings(paths)
+	return true, paths
+}
